@@ -286,7 +286,42 @@ def rule_return_path(ctx: Ctx) -> None:
                       f"{name} selects session keys by something other than the cell's circuit id")
 
 
+def rule_authenticated_accounting(ctx: Ctx) -> None:
+    """A cell changes the state of an originator circuit only after it was decrypted with that circuit's keys."""
+    pc = ctx.repo.method("PythonCryptoEndpoint", "process_cell", "ipv8/messaging/anonymization/crypto.py")
+    cfg = ctx.cfg(pc)
+    n = 0
+    for node in walk_no_nested(pc.node):
+        tgt = None
+        if isinstance(node, ast.Call) and call_name(node) == "beat_heart":
+            tgt = node.func.value
+        elif isinstance(node, ast.AugAssign) and isinstance(node.target, ast.Attribute) and node.target.attr in ("bytes_down", "bytes_up"):
+            tgt = node.target.value
+        if tgt is None or not isinstance(tgt, ast.Name):
+            continue
+        src = resolve(pc, tgt)
+        if not (isinstance(src, ast.Call) and chain(src.func) == "self.circuits.get"):
+            continue        # relay accounting: a relay cannot authenticate backward traffic (it only adds a layer)
+        n += 1
+        fs = facts_at(cfg, node)
+        ok = any(f.op == "truthy" and f.pos and isinstance(f.left, ast.Call) and chain(f.left.func) == "self.incoming_crypto" for f in fs)
+        ctx.check(ok, "data-origin", pc, node, f"`{norm(node)[:40]}` on an originator circuit happens only after incoming_crypto accepted the cell",
+                  f"process_cell updates the circuit's activity/traffic counters (`{norm(node)[:40]}`) before the cell is authenticated: anyone who knows a circuit id can keep "
+                  "a dead circuit alive or push it over the traffic limit without holding its keys", [str(f) for f in fs])
+    ctx.floor("data-origin.accounting", n, 2)
+    # per-instance state of routing objects is created in __init__ (a class-level deque/list/dict would be shared by all circuits)
+    ro = ctx.repo.cls("RoutingObject", "ipv8/messaging/anonymization/tunnel.py")
+    for c in [ro, *ro.all_subclasses()]:
+        for name, val in c.attrs.items():
+            v = strip_cast(val)
+            mutable = isinstance(v, (ast.List, ast.Dict, ast.Set)) or (isinstance(v, ast.Call) and chain(v.func) in ("deque", "list", "dict", "set", "defaultdict", "OrderedDict", "Counter"))
+            ctx.check(not mutable, "return-path-bound", c.where, f"{c.name}.{name}", f"{c.name}.{name} is not a shared mutable class attribute",
+                      f"{c.name}.{name} is a class-level mutable container ({norm(v)}): it is ONE object shared by every {c.name}, so data queued for one circuit is flushed "
+                      "through another circuit's socket")
+
+
 def run(ctx: Ctx) -> None:
+    rule_authenticated_accounting(ctx)
     rule_destroy(ctx)
     rule_no_overwrite(ctx)
     rule_data_origin(ctx)
